@@ -26,8 +26,8 @@ extern "C"
         uint16_t a_max, b_max, c_max, d_max;  // inclusive maxima used by generators
     } VhKindSpec;
 
-#define VH_MAX_PROPS 8
-#define VH_MAX_CLASSES 48
+#define VH_MAX_PROPS 12
+#define VH_MAX_CLASSES 64
 
     typedef struct VhSpec
     {
